@@ -291,6 +291,10 @@ TBad ==
                     \cup Flag(R.e \in {"deadlock", "livelock"} /\ "hdepth" \in DOMAIN R /\ R.hdepth > 0,
                               "handler_blocked_or_spinning")
                     \cup Flag(R.e = "panic" /\ "inh" \in DOMAIN R /\ R.inh = 1, "handler_panicked")
+                    \* an uncaught panic of wait / pending / forever / poll_signal / close (the documented
+                    \* panics of add_signal are caught by the scenarios): the call neither returned nor
+                    \* handed over what it had taken out of the slots
+                    \cup Flag(R.e = "panic" /\ "inh" \in DOMAIN R /\ R.inh = 0, "library_call_panicked")
     /\ Keep(<<watched, flag, queue, begun, yielded, gotIds, delivered, bytes, closed, call,
               consulted, lastAns, lastPoll, frames, poisoned>>)
 
@@ -326,11 +330,11 @@ TraceAccepted ==
 C03set == {"handler_blocked_or_spinning", "handler_panicked", "handler_lock", "handler_hint", "handler_alloc", "handler_free", "handler_steps"}
 C09set == {"consumer_blocked_with_unreported_signal", "delivery_woke_the_reader_but_stored_nothing",
            "pending_with_unreported_signal_and_no_wakeup",
-           "pending_unarmed_with_unreported_signal", "deadlock", "livelock"}
+           "pending_unarmed_with_unreported_signal", "deadlock", "livelock", "library_call_panicked"}
 C10set == {"record_not_a_faithful_copy", "yield_of_unwatched_signal", "more_yields_than_deliveries",
-           "record_of_no_delivery", "record_yielded_twice", "records_out_of_order"}
+           "record_of_no_delivery", "record_yielded_twice", "records_out_of_order", "library_call_panicked"}
 C11set == {"pending_without_consulting_callback", "closed_not_sticky", "closed_before_close",
-           "closed_reported_but_not_closed", "consumer_blocked_after_close"}
+           "closed_reported_but_not_closed", "consumer_blocked_after_close", "library_call_panicked"}
 C12set == {"ids_mutex_poisoned", "panic", "aborted", "registration_leaked_after_drop"}
 
 V_C03 == viol \cap C03set = {}
